@@ -1261,6 +1261,11 @@ class HelicityDecay(AmpDecay):
             self.total_ls = self.get_ls_list()
         return self.total_ls
 
+    def get_min_l(self):
+        """the minimal l of all allowed couplings (not only of the ones
+        temporarily selected by set_ls, see experimental.opt_int.split_gls)"""
+        return min(l for l, s in self.get_total_ls_list())
+
     def get_factor_m_dep(self, data, data_p, **kwargs):
         return self.get_ls_amp(data, data_p, **kwargs)
 
